@@ -257,6 +257,16 @@ class Outer:
     inner: Inner
     more: list[Inner] = dataclasses.field(default_factory=list)
     twice: typing.Optional[Inner] = None
+class Tree:
+    class Branch:
+        class Tag(typing.NamedTuple):
+            label: str
+            weight: int
+        tag: "Tree.Branch.Tag"
+        kids: "list[Tree.Branch]"
+        tags: "dict[str, Tree.Branch.Tag]"
+    root: Branch
+    first: "Tree.Branch.Tag"
 '''
 SAME_A = '''
 import dataclasses
@@ -315,6 +325,10 @@ def special_programs():
     out.append(("nested:Inner", N.Outer.Inner))
     out.append(("nested:list[Inner]", list[N.Outer.Inner]))
     out.append(("nested:dict[str, Outer]", dict[str, N.Outer]))
+    out.append(("nested:Tree", N.Tree))
+    out.append(("nested:Tree.Branch", N.Tree.Branch))
+    out.append(("nested:Tree.Branch.Tag", N.Tree.Branch.Tag))
+    out.append(("nested:list[Tree.Branch]", list[N.Tree.Branch]))
     out.append(("same-name:b.Item", B.Item))
     out.append(("same-name:list[b.Item]", list[B.Item]))
     out.append(("same-name:tuple[a.Item, b.Item]", tuple[A.Item, B.Item]))
@@ -344,6 +358,25 @@ def check_special(col):
             col.violation("1-terminates", case, f"static_order({name}) raised {tl.exc_name(nodes)}: {nodes}", bucket=name.split(":")[0] + "|" + exc_bucket(nodes))
             continue
         check_nodes(nodes, T, col, case, name)
+        if not isinstance(T, type):
+            continue
+        # 7 input forms of a class, nested classes included: module-qualified text, reference with / without a module
+        base = signature(nodes)
+        qn, mod = T.__qualname__, T.__module__
+        forms = {"string": lambda: graph.static_order(f"{mod}.{qn}"),
+                 "forwardref": lambda: graph.static_order(FR(qn, module=mod)),
+                 "second-call": lambda: graph.static_order(T),
+                 "newtype": lambda: graph.static_order(typing.NewType("W_NT", T)),
+                 "alias": lambda: graph.static_order(typing.TypeAliasType("W_AL", T))}
+        for fname, f in forms.items():
+            col.ev()
+            col.label(f"form:{fname}")
+            kf, nf = tl.call(f)
+            if kf == "exc":
+                col.violation("7-input-forms-agree", dict(case, form=fname), f"[{name}/{fname}] raised {tl.exc_name(nf)}: {nf}", bucket=f"special|{fname}|{exc_bucket(nf)}")
+            elif signature(nf) != base:
+                col.violation("7-input-forms-agree", dict(case, form=fname),
+                              f"[{name}/{fname}] sequence differs: {[x[0] for x in signature(nf)]} vs {[x[0] for x in base]}"[:500], bucket=f"special|{fname}")
 
 
 # ---- runner interface -------------------------------------------------------------------------------------
